@@ -577,3 +577,88 @@ def run(ctx):
                             "after an in-memory edit (a portal / light / group added or removed) the written count no longer matches the list that is written next to it: the parser reads too few or too many elements")
                 elif re.search(r"^\(?\d+", a) and "n_" in a:
                     ctx.bad(R_cnt, "write_header|literal-count", "%s:%d" % (wh.file, c["ln"]), "count written as `%s`" % a, "header count does not equal the list length")
+
+
+def run_extra(ctx):
+    """rules armed after run(): they need nothing from run()'s locals"""
+    wmo = ctx.prog.crate("wow_wmo")
+    # (1) the payload loop walks what the declared size was computed over: after `<header>.write(writer)` the loop that emits the
+    # chunk's elements iterates the collection whose len() / iter().sum() went into that header's `size`
+    R_walk = ctx.rule("C15.payload-loop-walks-what-the-size-was-summed-over", "in WmoWriter: for every ChunkHeader whose size derives from <X>.len() / <X>.iter()..sum(), the first loop after header.write() iterates X", floor=8)
+
+    def root_name(e):
+        e = hirq.strip(e)
+        while e.get("k") in ("mcall", "field", "index", "cast", "un", "try") and e.get("k") != "path":
+            if e.get("k") == "field" and hirq.strip(e["e"]).get("k") == "path" and hirq.strip(e["e"])["res"].get("local") == "self":
+                return "self." + e["name"]
+            e = hirq.strip(e.get("recv") or e.get("e") or {})
+        if e.get("k") == "field":
+            return hirq.render(e)
+        if e.get("k") == "path" and "local" in (e.get("res") or {}):
+            return e["res"]["local"]
+        return None
+    for f in wmo.fn_list:
+        if f.kind == "Closure" or not f.hir or "::tests::" in f.path or not f.file.endswith("wow-wmo/src/writer.rs"):
+            continue
+        body = f.hir["body"]
+        lets = {l["pat"]["name"]: l["init"] for l in hirq.find(body, "let") if l["pat"].get("k") == "bind" and l.get("init") is not None}
+        for blk in [b for b in hirq.walk(body) if b.get("k") == "block" and b.get("stmts")]:
+            stmts = blk["stmts"] + ([blk["e"]] if blk.get("e") is not None else [])
+            for i, st in enumerate(stmts):
+                w = next((c for c in hirq.walk(st, into_closures=False) if c.get("k") == "mcall" and c["m"] == "write" and hirq.strip(c["recv"]).get("k") == "path"
+                          and hirq.strip(c["recv"])["res"].get("local") in lets and hirq.strip(lets[hirq.strip(c["recv"])["res"]["local"]]).get("k") == "struct"
+                          and re.search(r"ChunkHeader$", (hirq.strip(lets[hirq.strip(c["recv"])["res"]["local"]]).get("res") or {}).get("def") or "")), None) if st.get("k") not in ("for", "while", "loop", "if") else None
+                if w is None:
+                    continue
+                hdr = hirq.strip(lets[hirq.strip(w["recv"])["res"]["local"]])
+                size_e = dict((nm, e) for nm, e in hdr["fields"]).get("size")
+                if size_e is None:
+                    continue
+                roots = set()
+                for v in [size_e] + [x for x in hirq.value_leaves(body, size_e) if x is not None]:
+                    for x in hirq.walk(v):
+                        if x.get("k") == "mcall" and x["m"] in ("len", "iter", "into_iter"):
+                            r0 = root_name(x["recv"])
+                            if r0:
+                                roots.add(r0)
+                        if x.get("k") == "path" and (x.get("res") or {}).get("local") in lets:
+                            for y in hirq.walk(lets[x["res"]["local"]]):
+                                if y.get("k") == "mcall" and y["m"] in ("len", "iter", "into_iter"):
+                                    r1 = root_name(y["recv"])
+                                    if r1:
+                                        roots.add(r1)
+                # a size accumulated element by element (`for name in names { size += name.len() + 1 }`) is computed over `names`
+                for lp0 in hirq.find(body, "for"):
+                    if set(hirq.pat_binds(lp0["pat"])) & roots and root_name(lp0["iter"]):
+                        roots.add(root_name(lp0["iter"]))
+                nxt = next((s2 for s2 in stmts[i + 1:] if s2.get("k") in ("for",)), None)
+                if not roots or nxt is None:
+                    continue
+                lr = root_name(nxt["iter"])
+                ctx.saw_fn(f)
+                inst = {"fn": norm(f.path).split("::")[-1], "header": hirq.strip(w["recv"])["res"]["local"], "size_from": sorted(roots), "loop_over": lr}
+                if lr is None or lr in roots:
+                    ctx.ok(R_walk, inst)
+                else:
+                    ctx.bad(R_walk, "%s|%s|loop-over-other-collection" % (inst["fn"], inst["header"]), "%s:%d" % (f.file, nxt.get("ln") or 0),
+                            "the size of `%s` is computed from %s, the loop that follows its write() emits the elements of `%s`" % (inst["header"], ", ".join(sorted(roots)), lr),
+                            "whenever the two collections differ in what they hold (de-duplicated runs, a filtered copy) the chunk declares more or fewer bytes than follow: the chunk walk resumes mid-chunk and every later chunk is lost, or the file ends early")
+    # (2) every record the writer emits is a record the parser returns: the per-record loops of the root / group parsers never skip
+    # an iteration (`continue`) — a record judged implausible is still data the file holds
+    R_keep = ctx.rule("C15.record-loops-keep-every-record", "in wow-wmo's parsers no loop that pushes parsed records contains a `continue` of its own", floor=40)
+    for f in wmo.fn_list:
+        if f.kind == "Closure" or not f.hir or "::tests::" in f.path or not f.file.endswith(("wow-wmo/src/parser.rs", "group_parser.rs", "root_parser.rs")):
+            continue
+        for lp in list(hirq.find(f.hir["body"], "for")) + list(hirq.find(f.hir["body"], "while")) + list(hirq.find(f.hir["body"], "loop")):
+            pushes = [c for c in hirq.walk(lp["body"], into_closures=False) if c.get("k") == "mcall" and c["m"] == "push"]
+            if not pushes:
+                continue
+            inner = [id(x) for l2 in list(hirq.find(lp["body"], "for")) + list(hirq.find(lp["body"], "while")) + list(hirq.find(lp["body"], "loop")) for x in hirq.walk(l2["body"])]
+            conts = [x for x in hirq.walk(lp["body"], into_closures=False) if x.get("k") == "continue" and id(x) not in inner]
+            ctx.saw_fn(f)
+            inst = {"fn": norm(f.path).split("::")[-1], "loop_line": lp.get("ln")}
+            if conts:
+                ctx.bad(R_keep, "%s|record-skipped" % inst["fn"], "%s:%d" % (f.file, conts[0].get("ln") or lp.get("ln") or 0), "the record loop of %s leaves an iteration with `continue` before its record is pushed" % inst["fn"],
+                        "a record the writer emitted is dropped on read (the parsed list is shorter than the written one; a second write is shorter than the first)")
+            else:
+                ctx.ok(R_keep, inst) if len(ctx.samples) < 380 else (ctx.rules[R_keep].__setitem__("obligations", ctx.rules[R_keep]["obligations"] + 1), ctx.rules[R_keep].__setitem__("discharged", ctx.rules[R_keep]["discharged"] + 1))
